@@ -46,7 +46,23 @@ def fam_reads(seed, i, tier):
                        "crashes": False, "w": {"submit": 8, "read": 10, "fire": 8, "hb": 12}}}
 
 
-FAMILIES = {"core": fam_core, "crash": fam_crash, "reads": fam_reads}
+def fam_member(seed, i, tier, s5free=False):
+    """membership changes (add non-voter / voter, promote, remove incl. the leader) with faults"""
+    rng = random.Random(sseed(seed, "member" + ("5" if s5free else ""), i))
+    nv = rng.choice([1, 2, 3, 3, 4])
+    extra = [x for x in IDS if x not in IDS[:nv]][:rng.choice([1, 2, 2])]
+    return {"name": "member%s-%d-%d" % ("5" if s5free else "", seed, i), "family": "member", "voters": IDS[:nv], "extra": extra,
+            "controlled": True, "auto": False, "heal": True, "heal_et": 60,
+            "random": {"seed": sseed(seed, "member.r", i), "steps": rng.choice([200, 350, 500]), "members": True, "s5free": s5free,
+                       "reads": rng.random() < 0.4, "crashes": rng.random() < 0.4,
+                       "w": {"submit": 8, "fire": 6, "member": 6, "hb": 12, "read": 4, "crash": 1, "armcrash": 1, "restart": 6}}}
+
+
+def fam_member5(seed, i, tier):
+    return fam_member(seed, i, tier, s5free=True)
+
+
+FAMILIES = {"core": fam_core, "crash": fam_crash, "reads": fam_reads, "member": fam_member, "member5": fam_member5}
 
 # ---- API programs (C18): enumerated by TLC from Api.tla ------------------------------------
 
@@ -174,7 +190,7 @@ def corpus(names):
 def scen_stats(evs):
     st = {"leaders": set(), "crashes": 0, "applies": 0, "appliers": set(), "truncates": 0, "ok_writes": 0, "ok_reads": 0,
           "votes": 0, "cand_terms": {}, "events": len(evs), "restarts": 0, "nonleader_reads": 0, "ae_rejects": 0,
-          "spec_steps": 0, "spec_matched": 0, "spec_drift": 0, "api_calls": 0}
+          "spec_steps": 0, "spec_matched": 0, "spec_drift": 0, "api_calls": 0, "cfg_appends": 0}
     for e in evs:
         ev = e["ev"]
         if ev == "status" and e["role"] == 0:
@@ -192,6 +208,8 @@ def scen_stats(evs):
             st["appliers"].add(e["node"])
         elif ev == "log_truncate":
             st["truncates"] += 1
+        elif ev == "log_append" and e.get("ctx") == "" and e["entries"] and e["entries"][0]["k"] == 2 and e["entries"][0]["i"] > 1:
+            st["cfg_appends"] += 1
         elif ev == "return" and e.get("res") == "ok" and e.get("call") == "submit":
             if e["kind"] == 0:
                 st["ok_writes"] += 1
@@ -218,6 +236,7 @@ RULES = {
     "C07": (">= 2 leaderships with entries applied in between", lambda s: len(s["leaders"]) >= 2 and s["applies"] >= 1),
     "C08": ("votes were requested in >= 2 terms or a voter crashed", lambda s: len(s["cand_terms"]) >= 2 or s["crashes"] >= 1),
     "C14": ("a crash at a storage-operation boundary followed by a restart", lambda s: s["crashes"] >= 1 and s["restarts"] >= 1),
+    "C09": ("a membership change was appended and a leader change happened", lambda s: s["cfg_appends"] >= 1 and len(s["leaders"]) >= 2),
     "C15": ("at heal time some node was down, behind the leader or in a stale term", lambda s: s["crashes"] >= 1 or s["truncates"] >= 1 or len(s["leaders"]) >= 2),
     "C18": ("an API program of at least two calls was executed", lambda s: s["api_calls"] >= 2),
 }
@@ -234,6 +253,7 @@ PROPS = {
     "C07": dict(fams=[("core", 3), ("crash", 2)], corpus=["core", "crash"], mc="MC_core3", mc_deep="MC_core3_deep", gen=[("Gen_core3", ["a", "b", "c"], 40)]),
     "C08": dict(fams=[("core", 2), ("crash", 3)], corpus=["core", "crash"], mc="MC_crash3", mc_deep="MC_crash3_deep"),
     "C14": dict(fams=[("crash", 5)], corpus=["crash"], mc="MC_crash3", mc_deep="MC_crash3_deep"),
+    "C09": dict(fams=[("member", 3), ("member5", 3)], corpus=["member"], mc="MC_member", monitor_props=["C01", "C02", "C07", "C09", "C05"]),
     "C12": dict(storage=True),
     "C13": dict(storage=True),
     "C15": dict(fams=[("core", 2), ("crash", 3)], corpus=["core", "crash"], mc="MC_core3"),
@@ -283,7 +303,8 @@ def run_check(prop, tier, seed, keep=False):
     by_name = {s["name"]: s for s in scs}
     traces, aborts, leaks = driver.run_jobs(scs, workdir, seed)
     t_run = time.time() - t0
-    res = driver.run_monitors(traces, {prop}, workdir)
+    judged = set(spec.get("monitor_props", [prop]))
+    res = driver.run_monitors(traces, judged, workdir)
     t_mon = time.time() - t0 - t_run
     for r in res:
         if not r["accepted"]:
@@ -291,7 +312,7 @@ def run_check(prop, tier, seed, keep=False):
     bad = [b for r in res for b in r["bad"]]
     recorder = [b for b in bad if b["p"] == "X"]
     warns = [b for b in bad if b["p"] == "W"]
-    mine = [b for b in bad if b["p"] == prop]
+    mine = [b for b in bad if b["p"] in judged]
     hits, rest, tags = driver.split_known(prop, mine)
     for kf, hs in sorted(hits.items()):
         log("KNOWN-FINDING: property=%s %s (%d occurrence(s) in this run; %s)" % (prop, tags[kf]["what"], len(hs), kf))
